@@ -566,6 +566,118 @@ Section Facts.
   Theorem returned_error_is_genuine s e : reachable s -> d s = Ret (Some e) -> failing e = true.
   Proof. intros R Hd. pose proof (I_errs_genuine s (inv_reachable s R)) as [_ H]. rewrite Hd in H. exact H. Qed.
 
+  (* ---------- every error in the channel, and the one received, was sent by a worker that
+     was started and failed (a second invariant on top of Inv) ---------- *)
+  Definition errs_reported (s : st) : Prop :=
+    Forall (fun e => reported (getw s e) = true) (errs s) /\
+    match d s with ErrWait e | Ret (Some e) => reported (getw s e) = true | _ => True end.
+
+  Lemma reported_update s j w' dd e t g dk x :
+    j < List.length (ws s) -> (reported (getw s j) = true -> reported w' = true) ->
+    reported (getw s x) = true -> reported (getw (mk dd (set (ws s) j w') e t g dk) x) = true.
+  Proof.
+    intros L Himp Hx. rewrite getw_with. destruct (Nat.eqb_spec j x) as [->|Hne]; [|exact Hx].
+    apply Nat.ltb_lt in L. rewrite L. apply Himp. exact Hx.
+  Qed.
+
+  Lemma errs_reported_worker s j w' e' t g dk :
+    errs_reported s -> j < List.length (ws s) -> (reported (getw s j) = true -> reported w' = true) ->
+    (e' = errs s \/ (e' = errs s ++ [j] /\ reported w' = true)) ->
+    errs_reported (mk (d s) (set (ws s) j w') e' t g dk).
+  Proof.
+    intros [HF HD] L Himp He. split; cbn [errs d].
+    - assert (F0 : Forall (fun e => reported (getw (mk (d s) (set (ws s) j w') e' t g dk) e) = true) (errs s)).
+      { eapply Forall_impl; [|exact HF]. intros x Hx. apply reported_update; auto. }
+      destruct He as [->|[-> Hr]]; [exact F0|]. apply Forall_app. split; [exact F0|].
+      constructor; [|constructor]. rewrite getw_with, Nat.eqb_refl. apply Nat.ltb_lt in L. rewrite L. exact Hr.
+    - destruct (d s) as [i|i|i|e0| |[e0|]]; auto; apply reported_update; auto.
+  Qed.
+
+  Lemma errs_reported_init : errs_reported init.
+  Proof. split; cbn; [constructor | exact I]. Qed.
+
+  Lemma errs_reported_step s l s' : Inv s -> errs_reported s -> step s l s' -> errs_reported s'.
+  Proof.
+    intros HI [HF HD] Hs. pose proof (conj HF HD) as H2. unfold Persist.step, Persist.fire in Hs.
+    pose proof (I_len s HI) as Hlen. pose proof (I_front s HI) as Hfr.
+    destruct l as [i|i|i|i| | |j|j|j|j|j|j].
+    - destruct (d s) as [i'|i'|i'|e0| |r] eqn:Ed; try discriminate.
+      destruct ((i' =? i) && (i <? n)); [|discriminate]. injection Hs as <-. split; [exact HF|exact I].
+    - destruct (d s) as [i'|i'|i'|e0| |r] eqn:Ed; try discriminate.
+      destruct ((i' =? i) && (tokens s <? cap)); [|discriminate]. injection Hs as <-. split; [exact HF|exact I].
+    - destruct (d s) as [i'|i'|i'|e0| |r] eqn:Ed; try discriminate.
+      destruct (errs s) as [|e r] eqn:Ee; [discriminate|].
+      destruct (i' =? i); [|discriminate]. injection Hs as <-.
+      inversion HF as [|x y Hx Hy]; subst. split; [exact Hy|exact Hx].
+    - destruct (d s) as [i'|i'|i'|e0| |r] eqn:Ed; try discriminate.
+      destruct (Nat.eqb_spec i' i) as [->|]; [|discriminate].
+      destruct (nth_error jobs i) as [[p c]|] eqn:En; [|discriminate]. injection Hs as <-.
+      destruct Hfr as [Li [F1 F2]].
+      assert (Hidle : getw s i = Idle) by (apply F2; lia).
+      split; cbn [errs d]; [|exact I].
+      eapply Forall_impl; [|exact HF]. intros x Hx. apply reported_update; auto; [lia|].
+      rewrite Hidle. discriminate.
+    - destruct (d s) as [i'|i'|i'|e0| |r] eqn:Ed; try discriminate.
+      destruct ((n <=? i') && (wg s =? 0)); [|discriminate]. injection Hs as <-. split; [exact HF|exact I].
+    - destruct (d s) as [i'|i'|i'|e0| |r] eqn:Ed; try discriminate.
+      + destruct (wg s =? 0); [|discriminate]. injection Hs as <-. split; [exact HF|exact HD].
+      + destruct (errs s) as [|e r] eqn:Ee; injection Hs as <-.
+        * split; [unfold with_d; cbn [errs]; rewrite Ee; constructor|exact I].
+        * inversion HF as [|x y Hx Hy]; subst. split; [exact Hy|exact Hx].
+    - destruct (getw s j) as [|p c|p c|p c| | | |ok|ok] eqn:Ew; try discriminate. injection Hs as <-.
+      apply errs_reported_worker; auto; try (apply getw_lt; rewrite Ew; discriminate); try (rewrite Ew; discriminate).
+    - destruct (getw s j) as [|p c|p c|p c| | | |ok|ok] eqn:Ew; try discriminate. injection Hs as <-.
+      apply errs_reported_worker; auto; try (apply getw_lt; rewrite Ew; discriminate); try (rewrite Ew; discriminate).
+    - destruct (getw s j) as [|p c|p c|p c| | | |ok|ok] eqn:Ew; try discriminate.
+      destruct (fail_w j); injection Hs as <-.
+      + apply errs_reported_worker; auto; try (apply getw_lt; rewrite Ew; discriminate); try (rewrite Ew; discriminate).
+      + assert (E : errs_reported (mk (d s) (set (ws s) j Written) (errs s) (tokens s) (wg s) (disk s))).
+        { apply errs_reported_worker; auto; try (apply getw_lt; rewrite Ew; discriminate); try (rewrite Ew; discriminate). }
+        exact E.
+    - destruct (getw s j) as [|p c|p c|p c| | | |ok|ok] eqn:Ew; try discriminate.
+      destruct (List.length (errs s) <? n); [|discriminate]. injection Hs as <-.
+      apply errs_reported_worker; auto; try (apply getw_lt; rewrite Ew; discriminate); try (rewrite Ew; discriminate); try (right; split; reflexivity).
+    - destruct (getw s j) as [|p c|p c|p c| | | |ok|ok] eqn:Ew; try discriminate.
+      + destruct (0 <? wg s); [|discriminate]. injection Hs as <-.
+        apply errs_reported_worker; auto; try (apply getw_lt; rewrite Ew; discriminate); try (rewrite Ew; discriminate).
+      + destruct (0 <? wg s); [|discriminate]. injection Hs as <-.
+        apply errs_reported_worker; auto; try (apply getw_lt; rewrite Ew; discriminate); try (rewrite Ew; discriminate).
+    - destruct (getw s j) as [|p c|p c|p c| | | |ok|ok] eqn:Ew; try discriminate.
+      destruct (0 <? tokens s); [|discriminate]. injection Hs as <-.
+      apply errs_reported_worker; auto; try (apply getw_lt; rewrite Ew; discriminate); try (rewrite Ew; discriminate).
+      rewrite Ew. destruct ok; cbn; auto.
+  Qed.
+
+  Lemma errs_reported_path s tr s' : Inv s -> errs_reported s -> path s tr s' -> errs_reported s'.
+  Proof.
+    intros HI H2 P. induction P as [s|s l s1 tr s' Hs P IH]; auto.
+    apply IH; [eapply inv_step; eauto | eapply errs_reported_step; eauto].
+  Qed.
+
+  Theorem errs_reported_reachable s : reachable s -> errs_reported s.
+  Proof. intros [tr P]. eapply errs_reported_path; [apply inv_init | apply errs_reported_init | exact P]. Qed.
+
+  (* the returned error is the error of a job that was started and did fail in this execution *)
+  Theorem returned_error_from_failed_job s e : reachable s -> d s = Ret (Some e) ->
+    has_failed (getw s e) = true /\ failing e = true /\ e < n.
+  Proof.
+    intros R Hd. pose proof (errs_reported_reachable s R) as [_ H]. rewrite Hd in H.
+    pose proof (inv_reachable s R) as HI. split; [|split].
+    - destruct (getw s e) as [|p c|p c|p c| | | |[]|[]]; cbn in *; congruence.
+    - pose proof (I_errs_genuine s HI) as [_ G]. rewrite Hd in G. exact G.
+    - rewrite <- (I_len s HI). apply getw_lt. intros E. rewrite E in H. discriminate.
+  Qed.
+
+  (* full characterisation of the result: an error is returned iff some started job failed *)
+  Theorem error_iff_failure s r : reachable s -> d s = Ret r ->
+    (r <> None <-> exists j, has_failed (getw s j) = true).
+  Proof.
+    intros R Hd. split.
+    - destruct r as [e|]; [|congruence]. intros _. exists e.
+      apply (returned_error_from_failed_job s e R Hd).
+    - intros Hj. destruct (failure_implies_error s r R Hd Hj) as (e & -> & _). discriminate.
+  Qed.
+
   (* ---------- the disk log ---------- *)
   Theorem never_twice_never_mixed s : reachable s ->
     exists rest, Permutation (disk s ++ rest) (map out jobs).
